@@ -1296,7 +1296,7 @@ def clone_rule(repo: Repo, rep, P: str):
     # the synth reader installs the module it read
     ssr = repo.cls("SunSynthReader", module="rv.readers.sunsynth")
     from ..packed import single_defs, resolve_names
-    sfff = inline.normalize(repo, ssr, repo.own_method(ssr, "process_SFFF"))
+    sfff = inline.normalize(repo, ssr, repo.own_method(ssr, "process_SFFF", raw=True), also=codec.section_helpers(repo, ssr))
     s = norm(sfff)
     dparam = (shape.params(sfff) or ["data"])[0]
     rewinds = [c for c in shape.calls_to(sfff, "rewind") if c.args and norm(c.args[0]) == dparam]
@@ -1308,6 +1308,11 @@ def clone_rule(repo: Repo, rep, P: str):
     if rewinds and readers and installed is not None and isinstance(installed, ast.Attribute) and installed.attr == "object" \
             and any(installed.value is r or norm(installed.value) == norm(r) for r in readers):
         rep.ok(f"{P}.R6", f"{ssr.file.rel}:SunSynthReader.process_SFFF", "rewind; ModuleReader(index=1); synth.module = mod")
+    elif any(isinstance(c, ast.Call) and isinstance(c.func, ast.Attribute) and norm(c.func.value) == "self" and c.func.attr not in ("rewind",)
+             and any(norm(a) == dparam for a in c.args) for c in ast.walk(sfff)):
+        # the chunk is handed to a method of the reader that was not read through
+        rep.inconclusive(f"{P}.R6", f"{ssr.file.rel}:SunSynthReader.process_SFFF", s[:160], "how the synth reader reads its module is not recognised",
+                         ssr.file.rel)
     else:
         rep.violation(f"{P}.R6", f"{ssr.file.rel}:SunSynthReader.process_SFFF", s[:160], "the synth reader must read one module and install it",
                       ssr.file.rel)
